@@ -369,6 +369,13 @@ func Exec(args []string, env *Env) int {
 			time.Sleep(time.Duration(d) * time.Millisecond)
 		}
 		Emit(&Event{Ev: "end", ID: c.ID, Key: key, Pid: evPid(), Status: status, Note: note, Outs: outs, Ins: ins, InProc: env.InProc})
+		if n := atoi(opts["noise"], 0); n > 0 && status != 0 && !env.InProc {
+			// a verbose failing tool: a long error report on stderr
+			line := strings.Repeat("error detail ", 8) + "\n"
+			for w := 0; w < n; w += len(line) {
+				os.Stderr.WriteString(line)
+			}
+		}
 		return status
 	}
 	fail := opts["fail"]
